@@ -41,7 +41,8 @@ PROBES = ["overloads_same_param_names", "optional_param_member", "class_missing_
           "unprintable_followed_by_hexdigit", "templated_class_documented", "no_docs_at_all",
           "bindings_with_marker", "bindings_expected_empty", "more_bindings_than_documented_overloads",
           "xml_member_has_extra_optional_param", "overloads_with_permuted_param_names",
-          "literals_crosschecked_with_gpp", "binding_after_fault_on_its_file", "text_longer_than_512"]
+          "literals_crosschecked_with_gpp", "binding_after_fault_on_its_file", "text_longer_than_512", "decoy_class_with_similar_name",
+          "decoy_member_with_similar_name"]
 
 
 def batches(tier):
@@ -345,6 +346,7 @@ def gen_case(tape, batch):
         arities = {}
         for f in c.of("method") + c.of("static"):
             arities.setdefault(f.name, set()).add(len(f.args))
+        entry["_arities"] = arities
         for f in c.of("method") + c.of("static"):
             if f.tmpl is not None:
                 continue
@@ -391,6 +393,70 @@ def gen_case(tape, batch):
                                      "returns": None, "argsstring": False})
             pr["member_without_argsstring"] = 1
         docs.append(entry)
+    # Decoys: documentation the interface does not ask for, placed where a looser match than "the same class,
+    # name and parameter names" would pick it up -- classes whose names contain / extend / re-case / re-namespace
+    # a wrapped class's name, with the same members under other markers; members whose names extend or are
+    # extended by a wrapped method's name, and same-named non-function members.  No binding may carry a
+    # decoy's marker (they are in no `allowed` set).
+    import copy
+    xml_classes = []
+    taken = {e["name"] for e in docs}
+    for entry in docs:
+        dec = None
+        if entry["members"] and "<" not in entry["name"] and tape.bool(0.35, "decoy-class"):
+            base = entry["name"]
+            last = base.split("::")[-1]
+            nsq = base[:len(base) - len(last)]
+            dname = {"prefix": nsq + "My" + last, "suffix": nsq + last + "Ext", "other-ns": "zz::" + last,
+                     "outer-ns": "outer::" + base, "no-ns": last if nsq else "detail::" + last,
+                     "lower": nsq + last.lower(), "suffix-digit": nsq + last + "2"}[
+                tape.pick(["prefix", "suffix", "other-ns", "outer-ns", "no-ns", "lower", "suffix-digit"],
+                          "decoy-class-kind")]
+            if dname not in taken:
+                taken.add(dname)
+                dec = {"name": dname, "refid": DX.refid_for(dname), "members": [], "in_index": True,
+                       "has_file": True, "decoy": True}
+                for m in entry["members"]:
+                    dm = copy.deepcopy(m)
+                    if dm.get("marker"):
+                        dm["marker"] = marker()
+                        for k in ("brief", "detailed"):
+                            if dm.get(k) is not None:
+                                dm[k] = dm["marker"] + " decoy of " + dname
+                    dec["members"].append(dm)
+                pr["decoy_class_with_similar_name"] = 1
+        xe = entry
+        funcs = [m for m in entry["members"] if m.get("kind") == "function" and m.get("marker")]
+        if funcs and tape.bool(0.3, "decoy-member"):
+            xe = dict(entry, members=list(entry["members"]))
+            src = tape.pick(funcs, "decoy-member-of")
+            how = tape.pick(["longer", "prefixed", "shorter", "variable", "upper"], "decoy-member-kind")
+            nm = {"longer": src["name"] + "All", "prefixed": "my" + src["name"], "shorter": src["name"][:-1],
+                  "variable": src["name"], "upper": src["name"].upper()}[how]
+            dm = copy.deepcopy(src)
+            dm["name"] = nm
+            dm["marker"] = marker()
+            dm["brief"] = dm["marker"] + " decoy member"
+            dm["detailed"] = None
+            dm["param_docs"] = None
+            dm["returns"] = None
+            if how == "variable":
+                dm["kind"] = "variable"
+                dm["params"] = []
+                dm["argsstring"] = False
+            wrapped_names = set(entry["_arities"])
+            # (a same-named data member next to a method cannot exist in C++; it is kept as a decoy only where
+            #  the arity already tells it apart, like the enum-value decoy above)
+            if nm and ((how == "variable" and 0 not in entry["_arities"].get(src["name"], {0})) or
+                       (how != "variable" and nm not in wrapped_names)):
+                xe["members"].insert(tape.choose(len(xe["members"]) + 1, "decoy-member-pos"), dm)
+                pr["decoy_member_with_similar_name"] = 1
+        if dec is not None and tape.bool(0.5, "decoy-class-first"):
+            xml_classes += [dec, xe]
+        elif dec is not None:
+            xml_classes += [xe, dec]
+        else:
+            xml_classes.append(xe)
     case["docs"] = docs
     if not any(m.get("marker") for e in docs for m in e["members"]):
         pr["no_docs_at_all"] = 1
@@ -413,7 +479,7 @@ def gen_case(tape, batch):
             pr["text_with_unprintable_latin1"] = 1
             if k + 1 < len(alltext) and alltext[k + 1] in "0123456789abcdefABCDEF":
                 pr["unprintable_followed_by_hexdigit"] = 1
-    case["xml"] = DX.build_tree({"classes": docs})
+    case["xml"] = DX.build_tree({"classes": xml_classes})
     case["mode"] = tape.weighted([2, 1], "mode")
     case["sub"] = tape.bool(0.3, "as-submodule")
     case["tpl"] = B.TEMPLATES[tape.weighted([3, 2, 2], "tpl")]
@@ -686,8 +752,7 @@ def judge(case, calls, lits, w):
         cands = exact + prefix
         allowed = {m["marker"] for m in cands if m.get("marker")}
         may_be_empty = (not cands) or any(not m.get("marker") for m in cands) or c["faulted"]
-        present = [mk for e in case["docs"] for m in e["members"]
-                   for mk in [m.get("marker")] if mk and mk in doc]
+        present = sorted(set(re.findall(r"MRK\d{4}\.", doc)))      # markers of wrapped members and of decoys alike
         if c["faulted"]:
             if doc != "":
                 viol.append({"inv": "D3", "sig": "D3:docstring-after-fault",
